@@ -49,33 +49,55 @@ pub struct Case {
 
 pub struct Prec {
     pub max_instr: usize,
+    /// where member `a` lives: 0 named struct field | 1 tuple struct field | 2 field of a named enum variant | 3 field of a tuple enum variant
+    pub host: usize,
+}
+
+pub const HOSTS: [&str; 4] = ["named-struct", "tuple-struct", "enum-named-variant", "enum-tuple-variant"];
+
+/// the counterpart's name for the member: an identifier where the counterpart is named, an index where it is positional
+fn rename(host: usize, marker: usize) -> String {
+    if host == 1 || host == 3 { format!("{}", 40 + marker) } else { format!("r{}", marker) }
 }
 
 pub fn to_item(instrs: &[MInstr]) -> crate::item::Item {
-    use crate::item::{Field, Instr, Item, Shape};
-    let mut a = Field::named("a", "i32");
+    to_item_on(instrs, 0)
+}
+
+pub fn to_item_on(instrs: &[MInstr], host: usize) -> crate::item::Item {
+    use crate::item::{Field, Instr, Item, Shape, Variant};
+    let positional = host == 1 || host == 3;
+    let mut a = if positional { Field::pos("i32") } else { Field::named("a", "i32") };
     for i in instrs {
-        let body = if i.ghost { format!("{{ {} }}", 1000 + i.marker) } else { format!("r{}, ~ + {}", i.marker, 1000 + i.marker) };
+        let body = if i.ghost { format!("{{ {} }}", 1000 + i.marker) } else { format!("{}, ~ + {}", rename(host, i.marker), 1000 + i.marker) };
         a.attrs.push(Instr::new(&i.name, i.ded.as_deref(), &body));
     }
-    let mut it = Item::new_struct("S", Shape::Named, vec![a, Field::named("b", "i32")]);
+    let b = if positional { Field::pos("i32") } else { Field::named("b", "i32") };
+    let mut it = match host {
+        0 => Item::new_struct("S", Shape::Named, vec![a, b]),
+        1 => Item::new_struct("S", Shape::Tuple, vec![a, b]),
+        _ => Item::new_enum("S", vec![Variant { attrs: vec![], name: "V".into(), shape: if host == 2 { Shape::Named } else { Shape::Tuple }, fields: vec![a, b] }, Variant { attrs: vec![], name: "W".into(), shape: Shape::Unit, fields: vec![] }]),
+    };
     for cp in ["T", "U"] {
         it.attrs.push(Instr::new("map", None, cp));
-        it.attrs.push(Instr::new("into_existing", None, cp));
         it.attrs.push(Instr::new("try_map", None, &format!("{}, Er", cp)));
-        it.attrs.push(Instr::new("try_into_existing", None, &format!("{}, Er", cp)));
+        if host < 2 {
+            // (into_existing on an enum is a known finding of C16/C17: the enum hosts carry the 8 From/Into kinds)
+            it.attrs.push(Instr::new("into_existing", None, cp));
+            it.attrs.push(Instr::new("try_into_existing", None, &format!("{}, Er", cp)));
+        }
     }
     it
 }
 
-fn render_input(instrs: &[MInstr]) -> String {
-    to_item(instrs).render()
+fn render_input(instrs: &[MInstr], host: usize) -> String {
+    to_item_on(instrs, host).render()
 }
 
 impl Space for Prec {
     type Case = Case;
     fn name(&self) -> String {
-        format!("precedence(<={})", self.max_instr)
+        if self.host == 0 { format!("precedence(<={})", self.max_instr) } else { format!("precedence(<={},{})", self.max_instr, HOSTS[self.host]) }
     }
     fn gen(&self, ctx: &mut Ctx) -> Option<Case> {
         let names = member_map_names();
@@ -97,14 +119,14 @@ impl Space for Prec {
         }
         // every order of the set: sets are generated as sequences, so every order is a distinct choice vector;
         // symmetric duplicates are removed by the canonical state key (rendered text)
-        let mut tags = vec![format!("n={}", k)];
+        let mut tags = vec![format!("n={}", k), format!("host={}", HOSTS[self.host])];
         for i in &instrs {
             tags.push(format!("instr={}{}", i.name, i.ded.as_ref().map(|d| format!("|{}", d)).unwrap_or_default()));
         }
-        Some(Case { input: render_input(&instrs), instrs, tags })
+        Some(Case { input: render_input(&instrs, self.host), instrs, tags })
     }
     fn check(&self, c: Case, choices: &[u32], rep: &Report) {
-        check_case(&self.name(), &c, choices, rep)
+        check_case_on(&self.name(), &c, choices, rep, self.host)
     }
 }
 
@@ -153,6 +175,10 @@ fn impls_of(src: &str) -> Result<Vec<ImplIR>, (String, String)> {
 }
 
 pub fn check_case(space: &str, c: &Case, choices: &[u32], rep: &Report) {
+    check_case_on(space, c, choices, rep, 0)
+}
+
+pub fn check_case_on(space: &str, c: &Case, choices: &[u32], rep: &Report, host: usize) {
     rep.eval(1);
     rep.states.add_of(&c.input);
     let impls = match impls_of(&c.input) {
@@ -169,6 +195,9 @@ pub fn check_case(space: &str, c: &Case, choices: &[u32], rep: &Report) {
     // oracle 1: the winner's marker, and only it, appears in the impl
     for cp in ["T", "U"] {
         for k in Kind::all() {
+            if host >= 2 && !(k.dir.is_from() || matches!(k.dir, Dir::OwnedInto | Dir::RefInto)) {
+                continue;
+            }
             let w = expected_winner(&c.instrs, k, cp);
             if w.is_some() {
                 nontrivial = true;
@@ -197,7 +226,7 @@ pub fn check_case(space: &str, c: &Case, choices: &[u32], rep: &Report) {
             }
             // a winning ghost in an Into kind: member `a` must not be read at all
             if let Some(i) = w {
-                if c.instrs[i].ghost && !k.dir.is_from() && body.contains("self . a") {
+                if c.instrs[i].ghost && !k.dir.is_from() && host == 0 && body.contains("self . a") {
                     problems.push("member `a` is a ghost for this conversion but is still read".into());
                 }
             }
@@ -221,7 +250,7 @@ pub fn check_case(space: &str, c: &Case, choices: &[u32], rep: &Report) {
         for i in 0..c.instrs.len() {
             let mut rest = c.instrs.clone();
             rest.remove(i);
-            let src2 = render_input(&rest);
+            let src2 = render_input(&rest, host);
             rep.eval(1);
             let impls2 = match impls_of(&src2) {
                 Ok(v) => v,
@@ -229,6 +258,9 @@ pub fn check_case(space: &str, c: &Case, choices: &[u32], rep: &Report) {
             };
             for cp in ["T", "U"] {
                 for k in Kind::all() {
+                    if host >= 2 && !(k.dir.is_from() || matches!(k.dir, Dir::OwnedInto | Dir::RefInto)) {
+                        continue;
+                    }
                     if expected_winner(&c.instrs, k, cp) == Some(i) {
                         continue;
                     }
@@ -260,11 +292,19 @@ pub fn run(tier: &str) -> i32 {
     rep.set_rule("member `a` of a named struct mapped to two counterparts T, U with all 12 conversion kinds each (24 impls) carries every sequence of <= k instructions (k = 2 quick, 3 thorough) drawn from 21 mapping names x {default, dedicated T, dedicated U} + {ghost, ghost_owned, ghost_ref} x {default, T, U}, at most one per (kind-level, dedication) bucket, every order; each instruction has a unique rename and marker. Oracle 1: for every (kind, fallibility, counterpart) the impl contains the marker of the instruction M_prec designates (ghost > exact kind > infallible of that kind > corresponding into (fallible, then infallible); dedicated beats default at each step) and no other marker. Oracle 2: removing any instruction leaves every impl in which it is not the winner token-identical. states = distinct inputs; non-trivial = inputs where some conversion has a non-default winner");
     rep.assume("M_prec is transcribed from the property statement; impls are located by (trait, Self, argument) read through a real parser; in-process expansion (fallback lexer, syn 1)");
     let caps = Caps::from_env(if tier == "quick" { 150.0 } else { 1500.0 });
-    run_space(&Prec { max_instr: if tier == "quick" { 2 } else { 3 } }, None, &caps, &rep);
+    run_space(&Prec { max_instr: if tier == "quick" { 2 } else { 3 }, host: 0 }, None, &caps, &rep);
+    // the same instruction sets on a tuple-struct member and on payload fields of enum variants (positional renames
+    // are indices, payload members are bindings): the selection logic must not depend on where the member lives
+    for host in 1..4 {
+        run_space(&Prec { max_instr: 2, host }, None, &caps, &rep);
+    }
     rep.finish()
 }
 
 pub fn replay(f: &Failure) -> i32 {
-    let n: usize = f.space.trim_start_matches("precedence(<=").trim_end_matches(')').parse().unwrap_or(2);
-    replay_space(&Prec { max_instr: n }, f, "C05")
+    let inner = f.space.trim_start_matches("precedence(<=").trim_end_matches(')');
+    let mut parts = inner.splitn(2, ',');
+    let n: usize = parts.next().unwrap_or("2").parse().unwrap_or(2);
+    let host = parts.next().and_then(|h| HOSTS.iter().position(|x| *x == h)).unwrap_or(0);
+    replay_space(&Prec { max_instr: n, host }, f, "C05")
 }
